@@ -3,6 +3,7 @@ package main
 import (
 	"fmt"
 	"go/constant"
+	"go/token"
 	"go/types"
 	"strings"
 
@@ -32,81 +33,122 @@ func runC12(c *Ctx) {
 	if gts := c.Anchor("O1", pkgPodInfo, "", "getTaskStatus"); gts != nil {
 		binding, _ := p.ConstInt(pkgPodStatus, "Binding")
 		n := 0
+		// the status is decided in getTaskStatus and in the helpers whose result it returns as it is (a branch of the
+		// phase switch moved out): for a helper the facts of the call site are added, and the request is the parameter
+		// that receives it — as the pointer, or as the boolean `bindRequest != nil`
+		type statusFn struct {
+			fn       *ssa.Function
+			site     FactSet
+			ptrParam int // parameter holding the request pointer (-1: none)
+			hasParam int // boolean parameter holding `request != nil` (-1: none)
+		}
+		scan := []statusFn{{gts, emptySet(), 1, -1}}
 		for _, b := range gts.Blocks {
 			ret, ok := b.Instrs[len(b.Instrs)-1].(*ssa.Return)
 			if !ok {
 				continue
 			}
-			k, isC := ret.Results[0].(*ssa.Const)
-			if !isC {
+			cl, ok := ret.Results[0].(*ssa.Call)
+			if !ok || cl.Call.StaticCallee() == nil || len(cl.Call.StaticCallee().Blocks) == 0 || !hasModPrefix(cl.Call.StaticCallee()) {
 				continue
 			}
-			v, _ := constant.Int64Val(constant.ToInt(k.Value))
-			fs := fx.blockFacts(gts, 0)[b]
-			_, hasReq := hasFact(fs, func(f Fact) bool {
-				return !f.Pol && f.T.Op == "bin" && f.T.Name == "==" && rootParam(f.T.Args[0]) == 1 && f.T.Args[1].isNilConst()
-			})
-			_, noReq := hasFact(fs, func(f Fact) bool {
-				return f.Pol && f.T.Op == "bin" && f.T.Name == "==" && rootParam(f.T.Args[0]) == 1 && f.T.Args[1].isNilConst()
-			})
-			_, pendingPhase := hasFact(fs, func(f Fact) bool {
-				return f.Pol && strings.Contains(f.T.String(), ".Status.Phase") && strings.Contains(f.T.String(), "Pending")
-			})
-			_, unbound := hasFact(fs, func(f Fact) bool {
-				return strings.Contains(f.T.String(), ".Spec.NodeName") && strings.Contains(f.T.String(), "builtin.len")
-			})
-			if v == binding {
-				n++
-				c.Check(hasReq, "O1", "RET", funcKey(gts)+": Binding only with a live BindRequest", instrPos(ret), "bindRequest != nil", "a pod can be reported Binding without a BindRequest")
-				continue
+			sfn := statusFn{cl.Call.StaticCallee(), fx.FactsAt(cl), -1, -1}
+			for i, a := range cl.Call.Args {
+				if prm, isP := a.(*ssa.Parameter); isP && prm == gts.Params[1] {
+					sfn.ptrParam = i
+				}
+				if bo, isB := a.(*ssa.BinOp); isB && bo.Op == token.NEQ && bo.X == ssa.Value(gts.Params[1]) {
+					sfn.hasParam = i
+				}
 			}
-			// any other status returned for a pending, not deleted, unbound pod requires bindRequest == nil
-			if pendingPhase && unbound {
-				_, deleted := hasFact(fs, func(f Fact) bool {
-					return !f.Pol && strings.Contains(f.T.String(), "DeletionTimestamp") && f.T.Args[1].isNilConst()
-				})
-				_, bound := hasFact(fs, func(f Fact) bool {
-					return f.T.Op == "bin" && strings.Contains(f.T.String(), ".Spec.NodeName") && ((f.T.Name == "==" && !f.Pol) || (f.T.Name == "<" && f.Pol))
-				})
-				if deleted || bound {
+			scan = append(scan, sfn)
+		}
+		for _, sfn := range scan {
+			for _, b := range sfn.fn.Blocks {
+				ret, ok := b.Instrs[len(b.Instrs)-1].(*ssa.Return)
+				if !ok {
 					continue
 				}
-				c.Check(noReq, "O1", "RET", fmt.Sprintf("%s: status %d for a pending unbound pod only without a BindRequest", funcKey(gts), v), instrPos(ret), "bindRequest == nil", "a pending, unbound pod with a live BindRequest can be reported with a status other than Binding (its resources are handed out again)")
+				k, isC := ret.Results[0].(*ssa.Const)
+				if !isC {
+					continue
+				}
+				v, _ := constant.Int64Val(constant.ToInt(k.Value))
+				fs := fx.blockFacts(sfn.fn, 0)[b].clone()
+				fs.addAll(sfn.site)
+				_, hasReq := hasFact(fs, func(f Fact) bool {
+					if sfn.hasParam >= 0 && f.Pol && f.T.Op == "param" && f.T.paramIndex() == sfn.hasParam {
+						return true
+					}
+					return sfn.ptrParam >= 0 && !f.Pol && f.T.Op == "bin" && f.T.Name == "==" && rootParam(f.T.Args[0]) == sfn.ptrParam && f.T.Args[1].isNilConst()
+				})
+				_, noReq := hasFact(fs, func(f Fact) bool {
+					if sfn.hasParam >= 0 && !f.Pol && f.T.Op == "param" && f.T.paramIndex() == sfn.hasParam {
+						return true
+					}
+					return sfn.ptrParam >= 0 && f.Pol && f.T.Op == "bin" && f.T.Name == "==" && rootParam(f.T.Args[0]) == sfn.ptrParam && f.T.Args[1].isNilConst()
+				})
+				_, pendingPhase := hasFact(fs, func(f Fact) bool {
+					return f.Pol && strings.Contains(f.T.String(), ".Status.Phase") && strings.Contains(f.T.String(), "Pending")
+				})
+				_, unbound := hasFact(fs, func(f Fact) bool {
+					return strings.Contains(f.T.String(), ".Spec.NodeName") && strings.Contains(f.T.String(), "builtin.len")
+				})
+				if v == binding {
+					n++
+					c.Check(hasReq, "O1", "RET", funcKey(gts)+": Binding only with a live BindRequest", instrPos(ret), "bindRequest != nil", "a pod can be reported Binding without a BindRequest")
+					continue
+				}
+				// any other status returned for a pending, not deleted, unbound pod requires bindRequest == nil
+				if pendingPhase && unbound {
+					_, deleted := hasFact(fs, func(f Fact) bool {
+						return !f.Pol && strings.Contains(f.T.String(), "DeletionTimestamp") && f.T.Args[1].isNilConst()
+					})
+					_, bound := hasFact(fs, func(f Fact) bool {
+						return f.T.Op == "bin" && strings.Contains(f.T.String(), ".Spec.NodeName") && ((f.T.Name == "==" && !f.Pol) || (f.T.Name == "<" && f.Pol))
+					})
+					if deleted || bound {
+						continue
+					}
+					c.Check(noReq, "O1", "RET", fmt.Sprintf("%s: status %d for a pending unbound pod only without a BindRequest", funcKey(gts), v), instrPos(ret), "bindRequest == nil", "a pending, unbound pod with a live BindRequest can be reported with a status other than Binding (its resources are handed out again)")
+				}
 			}
 		}
 		c.Floor("O1", "RET Binding returns", n, 1)
 		// a pod that is being deleted is never reported in a status that counts as allocated and alive (Running, Bound,
 		// Binding): it is Releasing. Gang counters, victim selection and the idle/releasing split all read this.
 		nAlive := 0
-		for _, b := range gts.Blocks {
-			ret, ok := b.Instrs[len(b.Instrs)-1].(*ssa.Return)
-			if !ok {
-				continue
-			}
-			k, isC := ret.Results[0].(*ssa.Const)
-			if !isC {
-				continue
-			}
-			v, _ := constant.Int64Val(constant.ToInt(k.Value))
-			alive := false
-			for _, nm := range []string{"Running", "Bound", "Binding", "Allocated"} {
-				if cv, ok := p.ConstInt(pkgPodStatus, nm); ok && cv == v {
-					alive = true
+		for _, sfn := range scan {
+			for _, b := range sfn.fn.Blocks {
+				ret, ok := b.Instrs[len(b.Instrs)-1].(*ssa.Return)
+				if !ok {
+					continue
 				}
-			}
-			if !alive {
-				continue
-			}
-			nAlive++
-			notDeleted := fx.allPathsSatisfy(ret, func(s FactSet) bool {
-				_, ok := hasFact(s, func(f Fact) bool {
-					return f.T.Op == "bin" && len(f.T.Args) == 2 && strings.HasSuffix(f.T.Args[0].String(), "DeletionTimestamp") && f.T.Args[1].isNilConst() &&
-						((f.T.Name == "==" && f.Pol) || (f.T.Name == "!=" && !f.Pol))
+				k, isC := ret.Results[0].(*ssa.Const)
+				if !isC {
+					continue
+				}
+				v, _ := constant.Int64Val(constant.ToInt(k.Value))
+				alive := false
+				for _, nm := range []string{"Running", "Bound", "Binding", "Allocated"} {
+					if cv, ok := p.ConstInt(pkgPodStatus, nm); ok && cv == v {
+						alive = true
+					}
+				}
+				if !alive {
+					continue
+				}
+				nAlive++
+				notDeleted := fx.allPathsSatisfy(ret, func(s FactSet) bool {
+					_, ok := hasFact(s, func(f Fact) bool {
+						return f.T.Op == "bin" && len(f.T.Args) == 2 && strings.HasSuffix(f.T.Args[0].String(), "DeletionTimestamp") && f.T.Args[1].isNilConst() &&
+							((f.T.Name == "==" && f.Pol) || (f.T.Name == "!=" && !f.Pol))
+					})
+					return ok
 				})
-				return ok
-			})
-			c.Check(notDeleted, "O9", "RET", fmt.Sprintf("%s: status %d (allocated and alive) only for a pod that is not being deleted", funcKey(gts), v), instrPos(ret), "DeletionTimestamp == nil on every path",
-				"a pod with a deletion timestamp can be reported as running / bound / binding: a terminating gang member counts as active (the gang looks complete and a lone replacement is bound below the minimum), and its resources count as used instead of releasing")
+				c.Check(notDeleted, "O9", "RET", fmt.Sprintf("%s: status %d (allocated and alive) only for a pod that is not being deleted", funcKey(gts), v), instrPos(ret), "DeletionTimestamp == nil on every path",
+					"a pod with a deletion timestamp can be reported as running / bound / binding: a terminating gang member counts as active (the gang looks complete and a lone replacement is bound below the minimum), and its resources count as used instead of releasing")
+			}
 		}
 		c.Floor("O9", "RET alive statuses of getTaskStatus", nAlive, 3)
 	}
